@@ -20,13 +20,13 @@ import (
 // Two complete configurations that differ in base directory, default id and the set of parameter sets.
 func cfgA() *vlib.Config {
 	return &vlib.Config{Default: 1, Sets: []*vlib.ParamSet{
-		{ID: 1, Alg: vlib.AlgArgon, Time: 1, Memory: 8, Threads: 1, Length: 16},
+		{ID: 1, Alg: vlib.AlgArgon, Time: 1, Memory: 4096, Threads: 1, Length: 16}, // a few ms per hash: the dispatcher is busy under load and its queues are not empty
 		{ID: 2, Alg: vlib.AlgScrypt, Cost: 2, HmacKey: []byte("0123456789abcdef0123456789abcdef")}}}
 }
 
 func cfgB() *vlib.Config {
 	return &vlib.Config{Default: 4, Sets: []*vlib.ParamSet{
-		{ID: 3, Alg: vlib.AlgScrypt, Cost: 1, HmacKey: []byte("fedcba9876543210fedcba9876543210")},
+		{ID: 3, Alg: vlib.AlgScrypt, Cost: 10, HmacKey: []byte("fedcba9876543210fedcba9876543210")},
 		{ID: 4, Alg: vlib.AlgArgon, Time: 2, Memory: 16, Threads: 1, Length: 24}}}
 }
 
@@ -50,7 +50,7 @@ func TestC18Reload(t *testing.T) {
 		var steps []reloadStep
 		for i, n := 0, rapid.IntRange(1, 5).Draw(t, "nsteps"); i < n; i++ {
 			steps = append(steps, reloadStep{Kind: rapid.SampledFrom([]string{"good", "good", "unparsable", "check-fails", "samedir-unsupported", "missing-file"}).Draw(t, "kind"),
-				Load: rapid.SampledFrom([]int{0, 4, 16}).Draw(t, "load"), HUPs: rapid.SampledFrom([]int{1, 1, 2, 5}).Draw(t, "hups")})
+				Load: rapid.SampledFrom([]int{0, 6, 18}).Draw(t, "load"), HUPs: rapid.SampledFrom([]int{1, 1, 2, 5}).Draw(t, "hups")})
 		}
 		root, err := os.MkdirTemp("", "reload-")
 		if err != nil {
@@ -63,13 +63,15 @@ func TestC18Reload(t *testing.T) {
 			os.Mkdir(w.base, 0o700)
 			writeUser(w.base, w.cfg, seedUser{Name: "root", PW: "root-" + w.name, Admin: true, PID: w.cfg.Sets[0].ID})
 			writeUser(w.base, w.cfg, seedUser{Name: w.user, PW: w.pw, PID: w.cfg.Sets[0].ID})
+			writeUser(w.base, w.cfg, seedUser{Name: "carl", PW: "carl-0", PID: w.cfg.Sets[0].ID})
 		}
 		noAdmin := filepath.Join(root, "noadmin")
 		os.Mkdir(noAdmin, 0o700)
 		writeUser(noAdmin, cfgB(), seedUser{Name: "bert", PW: "x", PID: 3})
 		cfgFile := filepath.Join(root, "store.yaml")
 		wa.cfg.WriteYAML(cfgFile, wa.base)
-		a, err := startAgent(root, cfgFile, agentOpts{listeners: []string{"sasl", "http"}})
+		upg := rapid.SampledFrom([]string{"", "local"}).Draw(t, "upgrades")
+		a, err := startAgent(root, cfgFile, agentOpts{listeners: []string{"sasl", "http"}, upgrades: upg})
 		if err != nil {
 			t.Fatalf("VERIF-INFRA %v", err)
 		}
@@ -136,7 +138,15 @@ func TestC18Reload(t *testing.T) {
 					defer wg.Done()
 					for k := 0; !stop.Load() && k < 400; k++ {
 						var err error
-						if i%2 == 0 {
+						if i%3 == 2 {
+							// a password change request in flight (same password: no state to track); it exists in both directories
+							var code int
+							var body string
+							code, body, err = a.api("/api/update", map[string]string{"username": "carl", "oldpassword": "carl-0", "newpassword": "carl-0"}, nil)
+							if err == nil && code != 200 {
+								err = fmt.Errorf("update of carl answered %d %s", code, body)
+							}
+						} else if i%2 == 0 {
 							_, err = a.saslAuth("root", "some-password", 0, 0)
 						} else {
 							var code int
@@ -151,6 +161,9 @@ func TestC18Reload(t *testing.T) {
 						}
 					}
 				}(i)
+			}
+			if st.Load > 0 {
+				time.Sleep(40 * time.Millisecond) // let the request queues fill before the signal arrives
 			}
 			from := a.nlines()
 			for h := 0; h < st.HUPs; h++ {
@@ -188,7 +201,8 @@ func TestC18Reload(t *testing.T) {
 				cur, other = other, cur
 			}
 			observe(cur, other, fmt.Sprintf("after reload step %d (%s, %d signals, load %d)", si, st.Kind, st.HUPs, st.Load))
-			vlib.NT("c18c", st.Kind, st.Load > 0, st.HUPs > 1, cur.name)
+			vlib.NT("c18c", st.Kind, st.Load > 0, st.HUPs > 1, cur.name, upg)
+			vlib.Class("reload:upgrades=" + upg)
 			vlib.Class("reload:" + st.Kind)
 			if st.Load > 0 {
 				vlib.Class("reload-with-requests-in-flight")
@@ -243,6 +257,26 @@ func TestC19HangingHook(t *testing.T) {
 	if !running() {
 		t.Fatalf("VIOLATION C19: the eligible hook was not started after a successful change\n%s", tail(a.log(), 1000))
 	}
+	// pressure: changes spread over several rate-limit intervals start more rounds of the hanging hook, then a burst larger
+	// than any internal buffer; every request must be answered promptly
+	toggle := false
+	change := func(what string) {
+		q0 := time.Now()
+		toggle = !toggle
+		st, body, err := a.api("/api/set-admin", map[string]any{"session": ar.Session, "username": "alice", "admin": toggle}, nil)
+		vlib.Eval()
+		if err != nil || st != 200 || time.Since(q0) > 10*time.Second {
+			t.Fatalf("VIOLATION C19: with hanging hooks the agent does not answer a change request promptly (%s): status %d %s err %v after %v", what, st, body, err, time.Since(q0))
+		}
+	}
+	for i := 0; i < 26; i++ {
+		change(fmt.Sprintf("paced change #%d", i))
+		time.Sleep(1 * time.Second)
+	}
+	for i := 0; i < 45; i++ {
+		change(fmt.Sprintf("burst change #%d", i))
+	}
+	vlib.Class("hanging-hook-pressure(paced changes + burst)")
 	// the agent answers throughout
 	slowest := time.Duration(0)
 	gone := time.Duration(0)
